@@ -301,7 +301,8 @@ parser! {
         FixedPoint::parse(fp.text.as_str())
       }
       / i:integer() {?
-        Ok(i.into())
+        // The whole part must fit: never wrap a value that is too large
+        u64::try_from(i.value).map(|whole| FixedPoint { span: i.span, whole, femptos: 0 }).map_err(|e| "fixed point")
     }
     rule hours() -> DurationLiteral = hours:fixed_point() dt_sep("h") {? DurationLiteral::checked_hours(hours).ok_or("duration") } / hours:integer() dt_sep("h") dt_sep("_")? min:minutes() {? DurationLiteral::checked_hours(hours.into()).and_then(|h| min.checked_plus(h)).ok_or("duration") }
     rule minutes() -> DurationLiteral = min:fixed_point() dt_sep("m") {? DurationLiteral::checked_minutes(min).ok_or("duration") } / mins:integer() dt_sep("m") dt_sep("_")? sec:seconds() {? DurationLiteral::checked_minutes(mins.into()).and_then(|m| sec.checked_plus(m)).ok_or("duration") }
@@ -311,7 +312,9 @@ parser! {
     // 1.2.3.2 Time of day and date
     rule time_of_day() -> TimeOfDayLiteral = tok(TokenType::TimeOfDay) tok(TokenType::Hash) d:daytime() { TimeOfDayLiteral::new(d) }
     rule daytime() -> Time = h:day_hour() tok(TokenType::Colon) m:day_minute() tok(TokenType::Colon) s:day_second() {?
-      Time::from_hms(h.try_into().map_err(|e| "hour")?, m.try_into().map_err(|e| "min")?, s.whole as u8).map_err(|e| "time")
+      let second = u8::try_from(s.whole).map_err(|e| "sec")?;
+      let nanosecond = (s.femptos / 1_000_000) as u32;
+      Time::from_hms_nano(h.try_into().map_err(|e| "hour")?, m.try_into().map_err(|e| "min")?, second, nanosecond).map_err(|e| "time")
     }
     rule day_hour() -> Integer = integer()
     rule day_minute() -> Integer = integer()
